@@ -132,3 +132,18 @@ pub assume_specification[u64::from_le](x: u64) -> (r: u64) ensures r == x;
 pub assume_specification[<i64>::checked_neg](x: i64) -> (r: Option<i64>)
     ensures r == (if x == i64::MIN { None::<i64> } else { Some((-x) as i64) });
 pub assume_specification[<u8 as From<bool>>::from](b: bool) -> (r: u8) ensures r == (if b { 1u8 } else { 0u8 });
+
+// little-endian byte strings (spec vocabulary §5) and A4/A6 helpers
+pub open spec fn le32(x: u32) -> Seq<u8> { seq![(x % 256) as u8, ((x / 0x100) % 256) as u8, ((x / 0x1_0000) % 256) as u8, ((x / 0x100_0000) % 256) as u8] }
+pub open spec fn le64(x: u64) -> Seq<u8> { le32((x % 0x1_0000_0000) as u32) + le32((x / 0x1_0000_0000) as u32) }
+// (std's integer to_le_bytes/from_le_bytes have a const-generic array length Verus cannot name in assume_specification;
+//  extracted calls are routed through these wrappers by logged per-function rewrites.)
+#[verifier::external_body] pub fn i64_to_le_bytes(x: i64) -> (r: [u8; 8]) ensures r@ == le64(x as u64) { x.to_le_bytes() }
+#[verifier::external_body] pub fn u32_to_le_bytes(x: u32) -> (r: [u8; 4]) ensures r@ == le32(x) { x.to_le_bytes() }
+#[verifier::external_body] pub fn u32_from_le_bytes(b: [u8; 4]) -> (r: u32) ensures le32(r) == b@ { u32::from_le_bytes(b) }
+#[verifier::external_body] pub fn u32_to_be_bytes(x: u32) -> (r: [u8; 4]) ensures r@ == le32(x).reverse() { x.to_be_bytes() }
+#[verifier::external_body]
+pub fn slice_copy_from_slice(dst: &mut [u8], src: &[u8])
+    requires old(dst)@.len() == src@.len(),      // std panics otherwise
+    ensures final(dst)@ == src@,
+{ dst.copy_from_slice(src) }
